@@ -91,6 +91,11 @@ func init() {
 		m.Intr["mltwist/internal/consoleui/internal/linereader.ReadLine"] = func(p *Path, c *ssa.CallCommon, a []Val) Val {
 			q, _ := p.Ghost["stdin"].([]Str)
 			if len(q) == 0 {
+				if _, stop := p.Ghost["stdin.stop"]; stop {
+					// the scripted input is a prefix of the session: the
+					// path ends where the script does
+					p.Stop("stdin-exhausted")
+				}
 				return Tuple{Str{}, p.NewError(Str{S: "EOF"}, Iface{})}
 			}
 			p.Ghost["stdin"] = q[1:]
